@@ -372,7 +372,7 @@ class Run(RunBase):
                     "thresholds": rng.choice(("default", "default", "disp", "latt", "both"))}
         if x < 0.945:
             return {"op": "badposcar", "src": k, "dst": rng.randrange(nobj), "empty": rng.random() < 0.7,
-                    "kind": rng.choice(("truncate", "extra-column", "far-atom", "garbage")), "k": rng.randrange(1 << 20)}
+                    "kind": rng.choice(("truncate", "extra-column", "far-atom", "garbage", "duplicate")), "k": rng.randrange(1 << 20)}
         if x < 0.96:
             return {"op": "read", "obj": k, "i": rng.randrange(self.nsites), "how": rng.choice(("item", "pos", "slice", "index", "occpos")),
                     "shift": [rng.choice((-1, 0, 1)) for _ in range(3)]}
@@ -729,6 +729,17 @@ class Run(RunBase):
                     body[n] = l + " 1"
                     break
             body.append("0.5 0.5 0.5")
+        elif kind == "duplicate" and ncoord >= 1:
+            # a hand-made file that names one site twice: the count of the last species column raised by one and the
+            # coordinates of an atom that is already listed appended (the host line was not deleted)
+            for n, l in enumerate(body):
+                if n >= 5 and all(tok.lstrip("-").isdigit() for tok in l.split()):
+                    toks = l.split()
+                    toks[-1] = str(int(toks[-1]) + 1)
+                    body[n] = " ".join(toks)
+                    first = n + 2
+                    break
+            body.append(body[first + rnd.randrange(ncoord)])
         elif kind == "far-atom" and ncoord >= 1:
             u = [float(x) for x in body[-1].split()[:3]]
             body[-1] = "{:.12f} {:.12f} {:.12f}".format(u[0] + 0.137, u[1] + 0.071, u[2] + 0.113)
@@ -741,7 +752,9 @@ class Run(RunBase):
             out = "accepted"
         except Exception as e:
             out = "raised " + type(e).__name__
-            self.faults["failed-poscar-read-" + kind] += 1
+        self.faults["malformed-poscar-" + kind + ("-accepted" if out == "accepted" else "-refused")] += 1
+        if False:
+            pass
         occ = [int(x) for x in tgt.occ]
         order = [[int(i) for i in l] for l in tgt.chemorder]
         self.checks += 1
